@@ -392,6 +392,15 @@ func updateResOne(res Resolver, rel UniRel) []UniRel {
 		rsRegisterNewEI(res, nei)
 		return rels
 	default:
+		frt.IfOnly(frt.Pipe(collectTVarFType(rel.Dest), (func() func(_r0 []string) bool {
+			_p0 := (func() func(_r0 string) bool {
+				_p0 := ei1.eset.Dict
+				return func(_r0 string) bool { return dict.ContainsKey(_p0, _r0) }
+			})()
+			return func(_r0 []string) bool { return slice.Forany(_p0, _r0) }
+		})()), (func() {
+			frt.PipeUnit(frt.Sprintf1("Recursive type found while unifying type variable: %s.", rel.SrcV), PanicNow)
+		}))
 		nei, rels := frt.Destr2(eiUpdateResT(ei1, rel.Dest))
 		return frt.IfElse(slice.IsEmpty(rels), (func() []UniRel {
 			return emptyRels()
